@@ -74,7 +74,7 @@ class Sink:
 
 
 class Taint:
-    def __init__(self, world, doc_types, decoded_enums=(), source_calls=None, bounded_sanitize=True, no_prop=None):
+    def __init__(self, world, doc_types, decoded_enums=(), source_calls=None, bounded_sanitize=True, no_prop=None, io_calls=None):
         self.w = world
         self.lib = world.lib
         self.g = world.graph
@@ -82,6 +82,7 @@ class Taint:
         self.source_calls = source_calls or SOURCE_CALLS
         self.bounded_sanitize = bounded_sanitize
         self.no_prop = no_prop or NO_PROP
+        self.io_calls = io_calls or IO_CALLS
         self.decoded_enums = set(decoded_enums)
         self.V = defaultdict(set)     # (body, local) -> labels
         self.D = defaultdict(set)
@@ -394,7 +395,7 @@ class Taint:
                 D = set(argD[0]) if argD else set()
                 for v in argV[1:]:
                     V |= v
-            elif IO_CALLS.search(name) or (self.bounded_sanitize and BOUNDED_RESULT.search(name)):
+            elif self.io_calls.search(name) or (self.bounded_sanitize and BOUNDED_RESULT.search(name)):
                 V = set()
             else:
                 V = set(anyV)
